@@ -38,11 +38,12 @@ package exec
 //@ func getRound(n) (r)
 //@   pure
 //@   property C06 C07 C15
-//@   uses num
+//@   uses num roundfn
 //@   ensures isNaN(n) ==> isNaN(r)                         @nan
 //@   ensures isInf(n) ==> r == n                           @inf
 //@   ensures !isNaN(n) && !isInf(n) && !negtie(n) ==> xpround(n, r)   @nearest
 //@   ensures negtie(n) ==> xpround(n, r)                              @nearest-negtie
+//@   ensures !negtie(n) ==> fsame(r, xprnd(n))                        @the-rounding-function
 
 //@ extern strconv.FormatFloat(f, fmt, prec, bits) (r)
 //@   pure
@@ -1877,10 +1878,11 @@ package exec
 //@   ensures r == runeCount(s)
 
 //@ extern strings.Builder.WriteRune(b, r) (n, err)
+//@   uses strbuilder
 //@   requires b != nil
 //@   modifies b
 //@   noalloc
-//@   ensures err == nil
+//@   ensures err == nil && sbstr(deref(b)) == old(sbstr(deref(b))) + runeStr(r)
 
 //@ extern strings.Builder.WriteByte(b, c) (err)
 //@   requires b != nil
@@ -1945,14 +1947,20 @@ package exec
 //@   requires len(args) == 1 && args[0] != nil
 //@   ensures err == nil && r == VNum(i2f(runeCount(toStr(args[0]))))            @characters-not-bytes
 
+//@ macro SUBFIRST = xprnd(toNum(args[1]))
+//@ macro SUBLAST = (if len(args) == 3 then (xprnd(toNum(args[1])) + xprnd(toNum(args[2]))) else finf())
 //@ func substring(context, args) (r, err)
 //@   property C07 C13 C15
-//@   uses values num
+//@   uses values num roundfn strfn strbuilder
 //@   requires okargs(args)
 //@   ensures (err != nil) == (len(args) != 2 && len(args) != 3)                 @never-fails-on-argument-values
 //@   ensures err == nil ==> isVStr(r)
+//@   ensures err == nil && !negtie(toNum(args[1])) && (len(args) == 3 ==> !negtie(toNum(args[2]))) ==> r == VStr(subPre(toStr(args[0]), runeCount(toStr(args[0])), $SUBFIRST$, $SUBLAST$))    @characters-at-positions-first-to-last-ieee
+//@   hint strings.Builder.String#1 !negtie(toNum(args[1])) && (len(args) == 3 ==> !negtie(toNum(args[2]))) ==> fsame(first, $SUBFIRST$) && fsame(last, $SUBLAST$)
 //@   loop 0
-//@     invariant position >= 0
+//@     invariant 0 - 1 <= #k && #k <= runeCount(toStr(args[0])) - 1 && position == #k + 1
+//@     invariant sbstr(deref(addrof_ret)) == subPre(toStr(args[0]), #k + 1, first, last)
+//@     decreases runeCount(toStr(args[0])) - #k
 
 //@ func normalizeXmlSpace(s) (r)
 //@   property C07 C13 C15
